@@ -7,13 +7,13 @@ CONSTANTS
   Nodes = {"n1", "n2"}
   SlotNode <- Slot2
   Menu <- MenuFwd
-  MaxReq <- MR1x2
+  MaxReq <- MR1x3
   AnswerKinds <- AKredir
   MaxMsg = 4
   TimeoutOn = FALSE
   MaxBkClose = 0
   AllowCliClose = FALSE
-  MaxHops = 2
+  MaxHops = 1
   MaxBurst = 2
   CanonKinds = TRUE
   PoolAny = TRUE
